@@ -31,7 +31,7 @@ type Program struct {
 
 type Scenario struct {
 	Progs      []Program      `json:"progs"`
-	SharedCode bool           `json:"shared_code"` // all contexts run ONE compiled code object (program 0)
+	SharedCode bool           `json:"shared_code"`         // all contexts run ONE compiled code object (program 0)
 	RelPaths   bool           `json:"rel_paths,omitempty"` // every context has sys.path ["."] and runs its program from a file in its own directory
 	Policy     string         `json:"policy"`
 	PNum       int            `json:"pnum"`
@@ -52,7 +52,7 @@ func (Engine) Property() string { return "C08" }
 var Locs = []string{
 	"global", "math.attr", "math.new", "sys.path.append", "sys.path.rebind", "sys.argv.inplace", "sys.argv.rebind",
 	"builtins.new", "builtins.len", "srcmod.val", "srcmod.list", "srcmod.dict", "class.attr", "func.default",
-	"type.int", "type.list", "type.exc", "os.environ", "string.attr", "time.attr", "sys.new",
+	"type.int", "type.list", "type.exc", "os.environ", "string.attr", "time.attr", "sys.new", "print.capture",
 }
 
 func writeStmt(loc string, v int) string {
@@ -94,6 +94,9 @@ func writeStmt(loc string, v int) string {
 		return "try:\n    list.zz_attr = " + val + "\nexcept TypeError:\n    pass"
 	case "type.exc":
 		return "try:\n    ValueError.zz_attr = " + val + "\nexcept TypeError:\n    pass"
+	case "print.capture":
+		// print() must write to THIS context's sys.stdout
+		return "import sys\nsys.stdout = _Cap()\nprint(" + val + ")"
 	case "os.environ":
 		return "import os\nos.environ[\"ZZ_SIM\"] = " + val
 	case "string.attr":
@@ -138,6 +141,8 @@ func readExpr(loc string) (prelude, expr string) {
 		return "", "list.zz_attr"
 	case "type.exc":
 		return "", "ValueError.zz_attr"
+	case "print.capture":
+		return "import sys", "_captured(sys.stdout)"
 	case "os.environ":
 		return "import os", "os.environ.get(\"ZZ_SIM\", \"unset\")"
 	case "string.attr":
@@ -156,6 +161,17 @@ def fdef(x=None, acc=[]):
     if x is not None:
         acc.append(x)
     return list(acc)
+class _Cap:
+    def __init__(self):
+        self.buf = []
+    def write(self, s):
+        self.buf.append(s)
+    def flush(self):
+        pass
+def _captured(o):
+    if type(o) is _Cap:
+        return "".join(o.buf)
+    return "not-captured"
 def kw(a, b=2, *rest, c=3, d=4, **more):
     return (a, b, rest, c, d, sorted(more.keys()))
 def mkcounter(start):
@@ -239,6 +255,9 @@ func (Engine) Gen(seed uint64, idx int, tier string) interface{} {
 	}
 	sc := &Scenario{SSeed: r.Uint64(), Order: simrt.MapOrder{Kind: r.Intn(4), K: r.Uint64()}}
 	n := 2 + r.Intn(3)
+	if tier == "thorough" && r.Chance(1, 3) {
+		n = 4 + r.Intn(4)
+	}
 	// a few hot locations per scenario so that writers and readers collide
 	hot := make([]string, 1+r.Intn(4))
 	for i := range hot {
